@@ -5,6 +5,8 @@ import SvgVerif.Model.PathOps
 import SvgVerif.Model.PathState
 import SvgVerif.Model.CubicCache
 import SvgVerif.Model.InvArc
+import SvgVerif.Model.Parser
+import SvgVerif.Model.Lexer
 /-! Correspondence driver: one operation per input line, one canonical result per
 output line.  Run as `lake env lean --run Driver.lean < ops.txt`.  The Python
 harness feeds the same operations to the real svgpathtools code and diffs. -/
@@ -148,6 +150,52 @@ def runStall (buggy : Bool) (ws : List String) : String :=
     | .maxits => "maxits"
   | _ => "bad-args"
 
+/-! C02 / C01: parser at token level and the tokenizer -/
+open SvgVerif.Model.Parser in
+def showSeg : Seg Rat → String
+  | .line a b => s!"L {showRat a.1} {showRat a.2} {showRat b.1} {showRat b.2}"
+  | .quad a c b => s!"Q {showRat a.1} {showRat a.2} {showRat c.1} {showRat c.2} {showRat b.1} {showRat b.2}"
+  | .cubic a c1 c2 b => s!"C {showRat a.1} {showRat a.2} {showRat c1.1} {showRat c1.2} {showRat c2.1} {showRat c2.2} {showRat b.1} {showRat b.2}"
+  | .arc a r rot l sw b => s!"A {showRat a.1} {showRat a.2} {showRat r.1} {showRat r.2} {showRat rot} {if l then 1 else 0} {if sw then 1 else 0} {showRat b.1} {showRat b.2}"
+
+open SvgVerif.Model.Parser in
+def showErr : Err → String
+  | .implicitWithoutCommand => "err implicit"
+  | .popFromEmpty => "err pop"
+  | .notANumber => "err notnum"
+  | .noneNotInStr => "err typeerror"
+  | .noStartPos => "err nostart"
+  | .arcStartEqEnd => "err assert"
+  | .fuel => "err fuel"
+
+open SvgVerif.Model.Parser in
+def parseTokWord (w : String) : Option (Tok Rat) :=
+  match w.toList with
+  | ['c', l] => some (.cmd l.toUpper (l.isUpper))
+  | _ => (parseRat? w).map .num
+
+open SvgVerif.Model.Parser in
+def runParse (legacy : Bool) (ws : List String) : String :=
+  match ws with
+  | cx :: cy :: rest =>
+    match parseRat? cx, parseRat? cy, rest.mapM parseTokWord with
+    | some cx, some cy, some ts =>
+      match parseToks legacy (cx, cy) ts with
+      | .ok (segs, closed) => (s!"ok {closed} " ++ " ; ".intercalate (segs.map showSeg)).trimAsciiEnd.toString
+      | .error e => showErr e
+    | _, _, _ => "bad-args"
+  | _ => "bad-args"
+
+open SvgVerif.Model.Lexer in
+def runLex (ws : List String) : String :=
+  match ws.mapM (·.toNat?) with
+  | some cps =>
+    let cs := cps.map Char.ofNat
+    "|".intercalate ((tokenize cs).map fun t => match t with
+      | .cmd c => String.singleton c
+      | .num s => String.ofList s)
+  | none => "bad-args"
+
 def handle (cmd : String) (args : List String) : String :=
   match cmd with
   | "polyroots01" =>
@@ -235,6 +283,9 @@ def handle (cmd : String) (args : List String) : String :=
       let starts := PathOps.rot1 (res.map (·.1))
       " ".intercalate ((res.zip starts).map fun (s, nx) => if s.2 = nx then "1" else "0")
     | none => "bad-args"
+  | "parse" => runParse false args
+  | "parse_legacy" => runParse true args
+  | "lex" => runLex args
   | "invseg" =>
     match parseRats? args with
     | some [L, a, sTol, maxits, s] => showIl (InvArc.invSeg (stubLen L a) sTol maxits.num.toNat s)
